@@ -116,6 +116,11 @@ def check_expr(expr, feats=(), data=None, ctx=None):
     if got[0] == "exception":
         fails.append(("exception-type:%s:%s" % (got[1], ftag), "%r raised %s: %s (reference: %r)" % (expr, got[1], got[2], exp[:2])))
         return fails, None
+    if "States.UUID" in expr and got[0] == "value":
+        # a version 4 UUID is drawn afresh on every evaluation, wherever the call is nested: the same expression evaluated again in the same process gives another value
+        again = run_repo(expr, copy.deepcopy(d0), copy.deepcopy(c0))
+        if again[0] == "value" and again[1] == got[1] and _has_uuid(got[1]):
+            fails.append(("uuid-repeats-across-evaluations:%s" % ftag, "%r gave %s twice" % (expr, _show(got[1]))))
     if exp[0] == "unspecified":
         return fails, exp[1]
     if exp[0] == "value":
@@ -137,6 +142,11 @@ def check_expr(expr, feats=(), data=None, ctx=None):
         if got[0] == "value":
             fails.append(("missed-path-failure:%s" % ftag, "%r -> %s; reference: path addresses nothing" % (expr, _show(got[1]))))
     return fails, None
+
+
+def _has_uuid(v):
+    import re
+    return bool(re.search(r"[0-9a-f]{8}-[0-9a-f]{4}-[0-9a-f]{4}-[0-9a-f]{4}-[0-9a-f]{12}", json.dumps(v, default=repr)))
 
 
 def _leaks_internals(v):
@@ -509,6 +519,14 @@ def main(tier, seed, replay=None):
         return camp.finish()
     install_canary()
     camp.run_witnesses(replay_case)
+    # directed: random-valued functions nested in path-free calls (where a result cache keyed by the call text would freeze them)
+    install_canary()
+    for expr in ["States.Format('req-{}', States.UUID())", "States.Array(States.UUID(), States.UUID())", "States.Base64Encode(States.Format('{}', States.UUID()))",
+                 "States.Format('{}/{}', States.UUID(), 'x')", "States.ArrayGetItem(States.Array(States.UUID(), 1), 0)", "States.JsonToString(States.Array(States.UUID()))", "States.UUID()"]:
+        c = {"kind": "expr", "expr": expr, "features": ["nested-uuid"]}
+        camp.case(c, nontrivial=True, classes=["directed-nested-uuid"])
+        for b, d in check_expr(expr, ("nested-uuid",))[0]:
+            camp.fail(b, c, d)
     from .. import fuzz
     if tier == "thorough":
         fuzz.campaign(camp, __name__, runs=150000, shards=16)
